@@ -552,6 +552,16 @@ def crafted_reduction_inputs(m, bits, seed, tier):
             T = v * R - mu * m
             if 0 <= T < m * R:
                 out.append(T)
+    # the full limb-product alphabets on BOTH intermediates at once (quotient digits mu and the value v before the final subtraction): the
+    # rows of the reduction add mu_k * m_j into words that v fixes, so carries between rows meet all-ones / zero words only for such pairs
+    lp = [x for x in alpha.limb_product(m, n, 3)]
+    vs2 = alpha.dedup([x for x in lp if x < 2 * m] + [x + m for x in lp if x + m < 2 * m])
+    mus2 = lp[:: (8 if tier == "quick" else 1)] if n > 4 else lp
+    for v in vs2:
+        for mu in mus2:
+            T = v * R - mu * m
+            if 0 <= T < m * R:
+                out.append(T)
     # plain products a*b of boundary values as well
     B = alpha.boundary(m, bits, seed, nfill=2)
     B = B[:: max(1, len(B) // 12)]
